@@ -1,0 +1,64 @@
+//go:build verif
+
+package tlcp
+
+// Verification hooks (build tag `verif` only): let the correspondence harness build
+// SessionState values with a recognisable identity and observe what the session cache
+// did to them. Nothing here is compiled without the tag.
+
+// VerifNewSessionState returns a fresh session whose identity is tag.
+func VerifNewSessionState(tag int) *SessionState {
+	ms := make([]byte, masterSecretLength)
+	for i := range ms {
+		ms[i] = byte(tag) | 1
+	}
+	return &SessionState{
+		sessionId:    []byte{byte(tag >> 8), byte(tag)},
+		vers:         VersionTLCP,
+		cipherSuite:  ECC_SM4_GCM_SM3,
+		masterSecret: ms,
+	}
+}
+
+// VerifSessionTag returns the identity given to VerifNewSessionState (-1 for nil).
+func VerifSessionTag(s *SessionState) int {
+	if s == nil || len(s.sessionId) != 2 {
+		return -1
+	}
+	return int(s.sessionId[0])<<8 | int(s.sessionId[1])
+}
+
+// VerifSessionWiped reports whether the master secret has been zeroed or dropped.
+func VerifSessionWiped(s *SessionState) bool {
+	if s == nil {
+		return false
+	}
+	if s.masterSecret == nil {
+		return true
+	}
+	for _, b := range s.masterSecret {
+		if b != 0 {
+			return false
+		}
+	}
+	return true
+}
+
+// VerifSessionInfo exposes the fields of a cached session (real handshakes).
+func VerifSessionInfo(s *SessionState) (id []byte, vers, suite uint16, master []byte, nPeer int) {
+	if s == nil {
+		return nil, 0, 0, nil, 0
+	}
+	return s.sessionId, s.vers, s.cipherSuite, s.masterSecret, len(s.peerCertificates)
+}
+
+// VerifLRULen returns the number of list elements and of map entries of a built-in cache.
+func VerifLRULen(c SessionCache) (q, m int) {
+	l, ok := c.(*lruSessionCache)
+	if !ok {
+		return -1, -1
+	}
+	l.Lock()
+	defer l.Unlock()
+	return l.q.Len(), len(l.m)
+}
